@@ -131,8 +131,23 @@ def cases(tier):
     return cs
 
 
+def tight_cap(c):
+    """a valid run cannot make more updates than every component walking from its start to (just beyond) the end with its smallest step;
+    a tight cap turns a driver that keeps updating into a 'hang' finding after a handful of states instead of a state explosion"""
+    steps, starts = [], []
+    for x in c["comps"]:
+        if x["kind"] == "T":
+            steps += [float(v) for v in (x.get("fixed") or x.get("menu") or [1])]
+            starts.append(float(x.get("start", 0)))
+    if not steps:
+        return 50
+    horizon = max(0.0, float(c["end"]) - min(starts))
+    return int(len(starts) * ((horizon + max(steps)) / min(steps) + 3) + 5)
+
+
 def run(tier, seed, agg):
     cs = cases(tier)
+    cs = [c if "update_cap" in c else dict(c, update_cap=tight_cap(c)) for c in cs]
     cs += [dict(c, stateless=5 if tier == 'quick' else 7) for c in cs if not any(x.get('fixed') for x in c['comps']) and c['end'] in (3.5, 6)]
     acheck.run_cases(cs, CLAUSES, agg, judge, seed)
     from core.pool import pmap
